@@ -215,7 +215,53 @@ func runLife(c *Ctx, sc lifeSc, seedLabel ...interface{}) (out lifeOutcome) {
 		garbage = rig.LibGoroIDs()
 	}
 
-	if err := doConnect("main"); err != nil {
+	// connect calls made by the harness's own goroutine are watched: one that never returns is judged like any
+	// other stuck state (dead-state proof, keep-alive tickers tolerated while no write fault is armed)
+	tolerant := func() rig.DeadOpt {
+		if mc := s.EP.Last(); mc != nil {
+			return rig.DeadOpt{TolerantPing: !mc.WriteFaultArmed()}
+		}
+		return rig.DeadOpt{TolerantPing: true}
+	}
+	connectStuck := func(where string) {
+		ds := rig.ProveDeadOpt(WaitShort, tolerant())
+		for try := 0; try < 40 && !ds.Dead && strings.HasPrefix(ds.Reason, "census changed"); try++ {
+			ds = rig.ProveDeadOpt(WaitShort, tolerant())
+		}
+		if ds.Dead {
+			for _, p := range []string{"C06", "C07"} {
+				add(p, "connect-never-returns|"+ds.Signature, fmt.Sprintf("Connect (%s) never returns; proven dead state: %s", where, ds.Signature))
+				out.Findings[len(out.Findings)-1].Dump = ds.Dump
+			}
+		} else {
+			out.Inconclusive = fmt.Sprintf("Connect (%s) did not return within the watchdog and the state is not provably dead (%s)", where, ds.Reason)
+		}
+		out.Events = lg.Len()
+	}
+	watchedConnect := func(where string) (error, bool) {
+		var err error
+		done := make(chan struct{})
+		go func() { err = doConnect(where); close(done) }()
+		if !waitChOpt(done, tolerant) {
+			connectStuck(where)
+			return nil, false
+		}
+		return err, true
+	}
+	awaitErr := func(ch chan error, where string) (error, bool) {
+		var err error
+		done := make(chan struct{})
+		go func() { err = <-ch; close(done) }()
+		if !waitChOpt(done, tolerant) {
+			connectStuck(where)
+			return nil, false
+		}
+		return err, true
+	}
+
+	if err, ok := watchedConnect("main"); !ok {
+		return
+	} else if err != nil {
 		out.Inconclusive = "first connect failed: " + err.Error()
 		return
 	}
@@ -624,13 +670,17 @@ func runLife(c *Ctx, sc lifeSc, seedLabel ...interface{}) (out lifeOutcome) {
 		if !last {
 			switch sc.Reconnect {
 			case "handler":
-				if err := <-connectErrs; err != nil {
+				if err, ok := awaitErr(connectErrs, "handler"); !ok {
+					return
+				} else if err != nil {
 					add("C07", "reconnect-failed", fmt.Sprintf("cycle %d: Connect from inside the DISCONNECTED handler failed: %v", cycle, err))
 					out.Events = lg.Len()
 					return
 				}
 			default:
-				if err := doConnect("other"); err != nil {
+				if err, ok := watchedConnect("other"); !ok {
+					return
+				} else if err != nil {
 					add("C07", "reconnect-failed", fmt.Sprintf("cycle %d: Connect after DISCONNECTED failed: %v", cycle, err))
 					out.Events = lg.Len()
 					return
